@@ -900,8 +900,10 @@ func (e *Executor) Execute(ctx context.Context, m File) (err error) {
 			return err
 		}
 	}
-	// In case the file was applied successfully, clean out the partial revisions.
+	// In case the file was applied successfully, clean out the partial revisions, and
+	// the error of a previous attempt (the failing statements might have been removed).
 	r.PartialHashes = nil
+	r.Error, r.ErrorStmt = "", ""
 	r.done()
 	return
 }
